@@ -602,5 +602,6 @@ Definition holds_cross (P : config) (o : observation) : bool :=
       | [p] => list_eqb Nat.eqb outs [p]
       | pop => cross_pairs_ok_b P (o_before o) (o_after o) pop (o_types o) outs (o_verdicts o)
       end
-  | _ => false
+  | RSingle _ => false
+  | RRaise => true     (* no output to speak about *)
   end.
